@@ -11,9 +11,11 @@ SHARDS = {'quick': 1, 'thorough': 4}
 OUTCOMES = ['ok', 'e404', 'e500', 'e401', 'conn', 'transient_ok', 'proto500']
 
 
-def judge(ctx, n, seq):
+def judge(ctx, n, seq, layout=None):
+    """layout: optional list of node indices, e.g. [0, 0, 1] = the same address configured twice (a weighted rotation)."""
     from pytezos.rpc.node import RpcError, RpcMultiNode
-    uris = ['http://n%d.test' % i for i in range(n)]
+    uris = ['http://n%d.test' % i for i in (layout or range(n))]
+    n = len(uris)
     state = {'call': -1, 'sub': 0}
 
     def handler(method, url, kwargs):
@@ -54,9 +56,11 @@ def judge(ctx, n, seq):
             except requests.exceptions.ConnectionError:
                 pass
     marks.append(len(t.log))
-    case = {'nodes': n, 'outcomes': list(seq)}
+    case = {'nodes': n, 'outcomes': list(seq), 'layout': layout}
+    if layout:
+        ctx.count('histories_with_an_address_configured_twice')
     fails = sum(1 for o in seq[:-1] if o not in ('ok',))
-    ctx.case((n, tuple(seq)), nontrivial=n > 1 and fails > 0)
+    ctx.case((n, tuple(seq), tuple(layout or ())), nontrivial=n > 1 and fails > 0)
     targets = []
     for i in range(len(seq)):
         reqs = [e for e in t.log[marks[i]:marks[i + 1]] if e[0] == 'req']
@@ -80,7 +84,7 @@ def judge(ctx, n, seq):
 def run(ctx):
     maxlen = ctx.pick(5, 7)
     ctx.rule = ('all outcome sequences over %s of length 1..%d (full alphabet to length %d, then {ok,e500,conn,transient_ok}) '
-                'for n=1..4 nodes, alternating get/post; non-trivial = more than one node and at least one failing or '
+                'for n=1..4 nodes (and node lists of 2..4 entries in which an address is configured more than once), alternating get/post; non-trivial = more than one node and at least one failing or '
                 'retried request before the last one' % (OUTCOMES, maxlen + 2, maxlen))
     ctx.exhaustive = True
     if not R.hooks_reached():
@@ -95,8 +99,16 @@ def run(ctx):
                 i += 1
                 if ctx.mine(i):
                     judge(ctx, n, seq)
+    # node lists in which an address occurs more than once: the i-th request still goes to entry i mod n of the list
+    for layout in ([0, 0], [0, 0, 1], [0, 1, 0], [0, 1, 1], [0, 0, 1, 1], [0, 1, 0, 2], [0, 1, 2, 0], [1, 0, 0, 0]):
+        for L in range(1, ctx.pick(5, 6) + 1):
+            for seq in itertools.product(['ok', 'e500', 'conn'] if L > 3 else ['ok', 'e404', 'conn', 'transient_ok'], repeat=L):
+                i += 1
+                if ctx.mine(i):
+                    judge(ctx, len(layout), seq, layout)
     ctx.require('http_requests', 10)
+    ctx.require('histories_with_an_address_configured_twice', 10)
 
 
 def replay(ctx, case):
-    judge(ctx, case['nodes'], case['outcomes'])
+    judge(ctx, case['nodes'], case['outcomes'], case.get('layout'))
